@@ -36,14 +36,17 @@ pub struct Config {
   /// seed of the permutation of the module allocation order; 0 = sorted by name
   pub order_seed: u64,
   pub run_ts: bool,
+  /// mean number of basic-block edges between two preemptions of a worker; 0 = workers yield only
+  /// at the explicit yield point of hook H1
+  pub quantum: u64,
 }
 
 impl Config {
   fn reference() -> Config {
-    Config { hash_seed: 0, sched_seed: 0, workers: 1, policy: "fifo".into(), order_seed: 0, run_ts: true }
+    Config { hash_seed: 0, sched_seed: 0, workers: 1, policy: "fifo".into(), order_seed: 0, run_ts: true, quantum: 0 }
   }
   fn to_json(&self) -> Value {
-    json!({"hash_seed": self.hash_seed, "sched_seed": self.sched_seed, "workers": self.workers, "policy": self.policy, "order_seed": self.order_seed, "run_ts": self.run_ts})
+    json!({"hash_seed": self.hash_seed, "sched_seed": self.sched_seed, "workers": self.workers, "policy": self.policy, "order_seed": self.order_seed, "run_ts": self.run_ts, "quantum": self.quantum})
   }
   fn from_json(v: &Value) -> Config {
     Config {
@@ -53,6 +56,7 @@ impl Config {
       policy: v["policy"].as_str().unwrap_or("fifo").to_string(),
       order_seed: v["order_seed"].as_u64().unwrap_or(0),
       run_ts: v["run_ts"].as_bool().unwrap_or(false),
+      quantum: v["quantum"].as_u64().unwrap_or(0),
     }
   }
   fn generate(run_seed: u64, kind: ProgramKind) -> Config {
@@ -80,6 +84,8 @@ impl Config {
       policy: policy.into(),
       order_seed: if w.chance(1, 8) { 0 } else { w.next_u64() | 1 },
       run_ts: kind != ProgramKind::IllTyped && w.chance(1, 3),
+      // a preemption costs two thread hand-overs; short quanta only now and then
+      quantum: if workers == 1 { 0 } else { *s.pick(&[0u64, 0, 300_000, 300_000, 30_000, 30_000, 3_000, 300]) },
     }
   }
 }
@@ -153,6 +159,7 @@ pub fn execute(program: &Program, cfg: &Config, tag: &str) -> RunReport {
   pool::install(pool::PoolConfig {
     workers: cfg.workers,
     schedule: pool::Schedule::Seeded { rng: Rng::new(cfg.sched_seed), policy },
+    quantum_mean: cfg.quantum,
   });
   // module enumeration order = order in which module references are allocated
   let mut names: Vec<&Vec<String>> = program.sources.keys().collect();
@@ -602,6 +609,8 @@ fn main() {
     ev.evaluations += 1;
     kinds.inc(program.kind.name());
     ev.faults_fired.add("preemption_at_temp_counter", d.stats.preemptions);
+    ev.faults_fired.add("preemption_at_quantum_expiry", d.stats.quantum_expiries);
+    ev.faults_fired.add("worker_blocked_on_a_lock_held_across_a_preemption", d.stats.blocked_workers);
     if d.cfg.order_seed != 0 {
       ev.faults_fired.inc("module_order_permuted");
     }
@@ -657,7 +666,7 @@ fn main() {
       ev.samples.push(json!({
         "program": programs[pi].0.summary(),
         "config": d.cfg.to_json(),
-        "pool": {"regions": d.stats.regions, "threaded_regions": d.stats.threaded_regions, "jobs": d.stats.jobs, "decisions": d.decisions, "yields": d.stats.yields, "preemptions_taken": d.stats.preemptions, "max_inflight": d.stats.max_inflight},
+        "pool": {"regions": d.stats.regions, "threaded_regions": d.stats.threaded_regions, "jobs": d.stats.jobs, "decisions": d.decisions, "yields": d.stats.yields, "preemptions_taken": d.stats.preemptions, "quantum_expiries": d.stats.quantum_expiries, "blocked_workers": d.stats.blocked_workers, "max_inflight": d.stats.max_inflight},
         "outcome": verdict_text(&d.outcome),
         "agrees_with_reference": results.get(&(pi, 0)).map(|r| compare(&r.outcome, &d.outcome).is_none()),
       }));
